@@ -2499,6 +2499,21 @@ impl StorageEngine {
                     if !expired_keys.is_empty() {
                         let mut shard_guard = shard.write().unwrap();
                         for key in expired_keys {
+                            // The deadline stored with the value is authoritative: the index entry
+                            // may be stale (the key was overwritten, persisted, re-created or given
+                            // a later deadline since it was indexed or since the scan above)
+                            match shard_guard.data.get(&key).map(|v| (v.is_expired(), v.metadata.expires_at)) {
+                                Some((true, _)) => {}
+                                Some((false, Some(expires_at))) => {
+                                    shard_guard.expiring_keys.insert(key, expires_at);
+                                    continue;
+                                }
+                                Some((false, None)) | None => {
+                                    shard_guard.expiring_keys.remove(&key);
+                                    continue;
+                                }
+                            }
+                            
                             if let Some(stored_value) = shard_guard.data.remove(&key) {
                                 shard_guard.expiring_keys.remove(&key);
                                 
